@@ -173,7 +173,9 @@ struct St {
 /// between the replacement of the spec and the end of the call
 struct C12 {
     ctl: Arc<(Mutex<HashMap<u64, (bool, bool, bool)>>, std::sync::Condvar)>, // tid -> (at_updated, released, done)
-    joins: HashMap<u64, std::thread::JoinHandle<()>>,
+    joins: HashMap<u64, std::thread::JoinHandle<Option<flexi_logger::LoggerHandle>>>,
+    /// the handle clones of the threads that pushed (every clone has its own stack of saved specs)
+    clones: HashMap<u64, flexi_logger::LoggerHandle>,
     submitted: Vec<String>,
 }
 impl C12 {
@@ -206,7 +208,7 @@ impl C12 {
                 g = cv.wait(g).unwrap();
             }
         })));
-        C12 { ctl, joins: HashMap::new(), submitted: vec![] }
+        C12 { ctl, joins: HashMap::new(), clones: HashMap::new(), submitted: vec![] }
     }
     fn wait_updated(&self, tid: u64, ms: u64) -> bool {
         let (m, cv) = &*self.ctl;
@@ -232,6 +234,8 @@ impl C12 {
         let t0 = std::time::Instant::now();
         while !self.lock_held() && t0.elapsed().as_secs() < 10 {
             if self.wait_updated(tid, 20) { return true; }
+            // the call has returned without ever reaching the parking point: nothing to wait for
+            if self.joins.get(&tid).is_some_and(|j| j.is_finished()) { return self.wait_updated(tid, 0); }
         }
         self.wait_updated(tid, 0)
     }
@@ -240,15 +244,29 @@ impl C12 {
         m.lock().unwrap().entry(tid).or_insert((false, false, false)).1 = true;
         cv.notify_all();
     }
+    /// a new call of the same thread id starts with a clean slate
+    fn reset(&self, tid: u64) {
+        let (m, _) = &*self.ctl;
+        let mut g = m.lock().unwrap();
+        g.remove(&tid);
+        g.remove(&(tid + 1000));
+    }
+    fn join(&mut self, tid: u64) {
+        if let Some(j) = self.joins.remove(&tid) {
+            if let Ok(Some(h)) = j.join() {
+                if let Some(old) = self.clones.insert(tid, h) { std::mem::forget(old); }
+            }
+        }
+    }
     fn finish_all(&mut self) {
         let tids: Vec<u64> = self.joins.keys().copied().collect();
         for t in &tids {
             self.release(*t + 1000);
             self.release(*t);
         }
-        for (_, j) in self.joins.drain() {
-            let _ = j.join();
-        }
+        for t in tids { self.join(t); }
+        // dropping a clone would shut the writers down
+        for (_, h) in self.clones.drain() { std::mem::forget(h); }
         flexi_logger::verif_hooks::set_point_handler(None);
     }
 }
@@ -588,6 +606,10 @@ pub fn execute(ctx: &mut Ctx, lines: &[String]) -> Vec<String> {
                 }
                 format!("err={} out={}", e as u8, o as u8)
             }
+            ["CSTART", tid, _] | ["CPUSH", tid, _] | ["CPOP", tid] if st.c12.as_ref().is_some_and(|c| c.joins.contains_key(&tid.parse::<u64>().unwrap_or(0))) => {
+                // (not a valid history: the previous call of this thread has not been finished)
+                "bad-op call in flight".into()
+            }
             ["CSTART", tid, id] => {
                 if !st.specs.contains_key(*id) {
                     "bad-op unknown spec".into()
@@ -596,13 +618,57 @@ pub fn execute(ctx: &mut Ctx, lines: &[String]) -> Vec<String> {
                 let c = st.c12.get_or_insert_with(C12::new);
                 let spec = st.specs[*id].clone();
                 c.submitted.push(id.to_string());
+                c.join(tid);
+                c.reset(tid);
                 let h = st.logger.as_ref().unwrap().1.clone();
                 ctx.report.count("op.CSTART");
                 c.joins.insert(tid, std::thread::Builder::new().name(format!("c12-{tid}")).spawn(move || {
                     h.set_new_spec(spec);
                     std::mem::forget(h); // dropping a clone would shut the writers down
+                    None
                 }).unwrap());
                 if c.wait_arrival(tid) { "ok".into() } else { ctx.report.count("c12.blocked"); "blocked".into() }
+                }
+            }
+            // push_temp_spec / pop_temp_spec on the handle clone of thread `tid` (kept between the
+            // calls: every clone has its own stack); the call parks inside the critical section of the
+            // change it ends with, like CSTART; a pop with nothing saved returns at once
+            ["CPUSH", tid, id] if st.specs.contains_key(*id) => {
+                let tid: u64 = tid.parse().unwrap();
+                let base = st.logger.as_ref().unwrap().1.clone();
+                let c = st.c12.get_or_insert_with(C12::new);
+                let spec = st.specs[*id].clone();
+                c.submitted.push(id.to_string());
+                c.join(tid);
+                c.reset(tid);
+                let mut h = match c.clones.remove(&tid) { Some(h) => { std::mem::forget(base); h } None => base };
+                ctx.report.count("op.CPUSH");
+                c.joins.insert(tid, std::thread::Builder::new().name(format!("c12-{tid}")).spawn(move || {
+                    h.push_temp_spec(spec);
+                    Some(h)
+                }).unwrap());
+                if c.wait_arrival(tid) { "ok".into() } else { ctx.report.count("c12.blocked"); "blocked".into() }
+            }
+            ["CPOP", tid] => {
+                let tid: u64 = tid.parse().unwrap();
+                ctx.report.count("op.CPOP");
+                match st.c12.as_mut() {
+                    Some(c) => {
+                        c.join(tid);
+                        c.reset(tid);
+                        match c.clones.remove(&tid) {
+                            Some(mut h) => {
+                                c.joins.insert(tid, std::thread::Builder::new().name(format!("c12-{tid}")).spawn(move || {
+                                    h.pop_temp_spec();
+                                    Some(h)
+                                }).unwrap());
+                                if c.wait_arrival(tid) { "ok".into() } else { ctx.report.count("c12.blocked"); "blocked".into() }
+                            }
+                            // this clone has saved nothing: pop_temp_spec changes nothing
+                            None => "ok".into(),
+                        }
+                    }
+                    None => "bad-op no concurrent section".into(),
                 }
             }
             // CENTER: the call is entered and parked before it asks for the lock; CGO lets it go on
@@ -619,6 +685,7 @@ pub fn execute(ctx: &mut Ctx, lines: &[String]) -> Vec<String> {
                 c.joins.insert(tid, std::thread::Builder::new().name(format!("c12e-{tid}")).spawn(move || {
                     h.set_new_spec(spec);
                     std::mem::forget(h);
+                    None
                 }).unwrap());
                 if c.wait_updated(tid + 1000, 2000) { "ok".into() } else { "not-parked".into() }
                 }
@@ -640,7 +707,7 @@ pub fn execute(ctx: &mut Ctx, lines: &[String]) -> Vec<String> {
                 match st.c12.as_mut() {
                     Some(c) if c.joins.contains_key(&tid) && c.wait_updated(tid, 0) => {
                         c.release(tid);
-                        let _ = c.joins.remove(&tid).unwrap().join();
+                        c.join(tid);
                         // a call that was waiting for the lock now proceeds to its own parking point
                         let waiting: Vec<u64> = c.joins.keys().copied().collect();
                         for w in waiting {
@@ -1426,6 +1493,63 @@ pub fn gen_c12(tier: &str, seed: u64) -> Vec<Vec<String>> {
         if !early { c.push("CGO 1 s1".into()); }
         c.push("CFINISH 1".into());
         c.push("CFINISH 1".into());
+        c.push(format!("CQUIET {grid}"));
+        c.push(format!("GRID {grid}"));
+        c.push("END".into());
+        cases.push(c);
+    }
+    // push / pop on handle clones (every clone has its own stack), overlapping with changes on
+    // other clones: a push that arrives while a change holds the lock saves the specification of
+    // THAT change; the pop afterwards re-activates it with its own maximum level
+    for _ in 0..(if tier == "thorough" { 300 } else { 30 }) {
+        let mut r = root.fork();
+        let mut c = vec![format!("CASE spec C12 p{k}")];
+        k += 1;
+        if r.chance(1, 3) { c.push(format!("WRITER {} {}", hexs("W0"), r.below(6))); }
+        let m = r.pick_s(&["chatty", "a::b"]).to_string();
+        let lv: Vec<u64> = (0..4).map(|_| r.below(6)).collect();
+        c.push(format!("BUILD s0 _:{} _", lv[0]));
+        c.push(format!("BUILD s1 _:{},n{}:{} _", lv[1], hexs(&m), r.below(6)));
+        c.push(format!("BUILD s2 _:{} _", lv[2]));
+        c.push(format!("BUILD s3 _:{},n{}:{} _", lv[3], hexs(&m), r.below(6)));
+        let tgs = targets_for(&mut r, &[m.clone()]);
+        let grid: String = tgs.iter().map(|t| hexs(t)).collect::<Vec<_>>().join(" ");
+        c.push("INIT s3".into());
+        match r.below(4) {
+            0 | 1 => {
+                // the push arrives while a change is in its critical section
+                c.push("CSTART 0 s0".into());
+                c.push("CPUSH 1 s1".into());
+                c.push("CFINISH 0".into());
+                c.push("CFINISH 1".into());
+                if r.chance(1, 2) { c.push("CSTART 0 s2".into()); c.push("CFINISH 0".into()); }
+                c.push("CPOP 1".into());
+                c.push("CFINISH 1".into());
+            }
+            2 => {
+                // a change arrives while the push is in its critical section
+                c.push("CPUSH 1 s1".into());
+                c.push("CSTART 0 s0".into());
+                c.push("CFINISH 1".into());
+                c.push("CFINISH 0".into());
+                c.push("CPOP 1".into());
+                if r.chance(1, 2) { c.push("CSTART 0 s2".into()); c.push("CFINISH 1".into()); c.push("CFINISH 0".into()); } else { c.push("CFINISH 1".into()); }
+            }
+            _ => {
+                // two clones push one after the other and pop in either order
+                c.push("CPUSH 1 s1".into());
+                c.push("CFINISH 1".into());
+                c.push("CPUSH 2 s2".into());
+                c.push("CFINISH 2".into());
+                let (a, b) = if r.chance(1, 2) { (1, 2) } else { (2, 1) };
+                c.push(format!("CPOP {a}"));
+                c.push(format!("CSTART 0 s0"));
+                c.push(format!("CFINISH {a}"));
+                c.push("CFINISH 0".into());
+                c.push(format!("CPOP {b}"));
+                c.push(format!("CFINISH {b}"));
+            }
+        }
         c.push(format!("CQUIET {grid}"));
         c.push(format!("GRID {grid}"));
         c.push("END".into());
